@@ -157,8 +157,13 @@ def judge_C01(ctx):
         if out:
             ctx.distinct.add(out)
         if why is not None:
-            nrings = out.count("%") if why == "ring-label>99" else 0
-            sig = "C01:ring-label>99" if why == "ring-label>99" else "C01:" + why.split(":")[0]
+            sig = "C01:" + why.split(":")[0]
+            if why == "ring-label>99":
+                # narrow signature of finding F1: labels >= 100 appear exactly because the molecule has
+                # more than 99 ring bonds and labels are never recycled
+                import re as _re
+                labels = _re.findall(r"%\d\d\d|%\d\d|\d", _re.sub(r"\[[^\]]*\]", "", out))
+                sig = "C01:ring-label>99" if len(labels) // 2 > 99 else "C01:ring-label-illegal"
             add_violation(ctx, sig, "decoder output is not a valid SMILES under the table: " + why,
                           selfies=s, table=table, output=out)
     return judge
@@ -296,6 +301,19 @@ def check_C07(ctx, rt):
             sf.set_semantic_constraints(dict(tab))
             al = sorted(sf.get_semantic_robust_alphabet())
             run_decoder_stream(ctx, rt, "over-alphabet", gens.gen_uniform(rt.rng, al, rt.n(300, 3000), 60), tname, tab)
+        # finding F10: a key whose charge has more digits than int() converts
+        try:
+            sf.set_semantic_constraints({"?": 8, "C+" + "1" * 5000: 3})
+            for sym in sf.get_semantic_robust_alphabet():
+                if len(sym) > 100:
+                    try:
+                        sf.decoder(sym)
+                    except sf.DecoderError:
+                        add_violation(ctx, "C07:long-charge-key", "alphabet symbol of a key with a >4300-digit charge is rejected by the decoder",
+                                      key="C+" + "1*5000")
+                        break
+        except ValueError:
+            pass
         # reflects the table in force at the time of the call
         sf.set_semantic_constraints("hypervalent")
         a1 = sf.get_semantic_robust_alphabet()
@@ -338,7 +356,7 @@ def check_C08(ctx, rt):
             ctx.evaluations += 1
             r = impl.real_decoder(s)
             if r == "err\tRecursionError":
-                add_violation(ctx, "C08:RecursionError:_derive_mol_from_symbols",
+                add_violation(ctx, "C08:RecursionError:" + (impl.LAST_FRAME or "?"),
                               "RecursionError escapes selfies.decoder on deeply nested branches", selfies_desc=name)
             elif r.startswith("err\t") and r != "err\tDecoderError":
                 add_violation(ctx, "C08:escape:" + r.split("\t")[1], "exception escapes on deep nesting", selfies_desc=name)
@@ -457,7 +475,7 @@ def check_C16(ctx, rt):
     # through the real translators: ring of size n+2 and branch of length n
     restore_default()
     strings = []
-    for n in list(range(1, 40)) + [255, 256, 257, 300, 4094]:
+    for n in list(range(2, 40)) + [255, 256, 257, 300, 4094]:
         smi = "C1" + "C" * n + "1"
         try:
             s = sf.encoder(smi)
@@ -697,7 +715,8 @@ def check_C15(ctx, rt):
             lab = hot = None
         lines.append("s2e\t%s\t%s\t%d\t%s" % (enc(s), vocab_wire(stoi), pad, et))
         expected.append(w)
-        if w.startswith("ok"):
+        wf = not s.startswith(".") and ".." not in s
+        if w.startswith("ok") and wf:
             items = list(sf.split_selfies(s))
             L = max(len(items), pad)
             padded = s + "[nop]" * (L - len(items))
@@ -717,7 +736,7 @@ def check_C15(ctx, rt):
                 back = sf.encoding_to_selfies(hot, itos, enc_type="one_hot")
                 if back != padded:
                     add_violation(ctx, "C15:inverse-onehot", "one-hot decoding is not the padded string", string=s, back=back)
-        elif w not in ("err\tKeyError", "err\tValueError"):
+        elif w.startswith("err") and w not in ("err\tKeyError", "err\tValueError"):
             add_violation(ctx, "C15:error-class", "unexpected exception class", string=s, error=w)
     rt.corr("selfies_to_encoding", lines, expected)
     # batch functions
